@@ -247,6 +247,16 @@ impl Gen {
         self.obs.push(format!("BMark {}", lobs(&self.sim.conns[i])));
     }
 
+    /// the run-time liveness window reaches link i (what `refresh_conn_timeouts` does with the snapshot value)
+    fn set_timeout(&mut self, i: usize, t: u64, run: &mut Run) {
+        let mut h = self.sim.conns[i].verif_hidden();
+        h.conn_timeout_ms = t;
+        self.sim.conns[i].verif_set_hidden(h);
+        run.count("config:set_conn_timeout");
+        self.ops.push(format!("OSetTimeout {} {}", i, t));
+        self.obs.push("BNone".into());
+    }
+
     async fn tick(&mut self, at: u64, classic: bool, r: &mut Rng, run: &mut Run, echo_p: &[u64], rereg_p: &[u64], rtt_ms: &[u64]) {
         let now = at.max(self.now);
         self.now = now;
@@ -377,6 +387,11 @@ async fn gen_case(r: &mut Rng, run: &mut Run, style: u64, nticks: usize) -> std:
         drop_after.push(1 + r.below(2));
         drop_to.push(*r.pick(&[1u64, 2, 5, 20]));
         if style == 5 { rtt_ms[i] = *r.pick(&[400u64, 950, 2500, 4000]); }
+    }
+    // one case in three runs on a configured liveness window other than the default (clamped range 1..60 s)
+    if r.chance(1, 3) {
+        let t = *r.pick(&[1000u64, 2000, 3000, 8000, 15_000, 60_000]);
+        for i in 0..n { g.set_timeout(i, t, run); }
     }
     // initial registration: REG3 from the receiver on most links
     for i in 0..n {
